@@ -1,6 +1,8 @@
 """C03 — close() always completes and leaves everything shut down.  Model A."""
 from __future__ import annotations
 
+from typing import Any
+
 from .. import common, lifecycle
 from . import _life
 
@@ -46,6 +48,53 @@ def oracle_serial(r: dict) -> list[str]:
     if r['info'].get('blocked_at_end') and r['info'].get('live_children') == 0 and 'close' in r['info']['blocked_at_end']:
         msgs.append('close() is still blocked although no child is alive')
     return msgs
+
+
+def close_pending_hook_failure(hook_name: str) -> dict:
+    """A run is in progress, close() has been issued from another task and is waiting for the run; the child exits and a
+    third-party plugin's hook of the completion (`on_finished`, `on_change_state`) raises.  close() must still return, closed."""
+    import asyncio
+    from .. import fakes, loop as ctl
+    from nextline.spawned import RunResult
+
+    async def main() -> dict:
+        from nextline.plugin.spec import hookimpl
+        sc = lifecycle.Scenario(0, 1, False, False)
+        await sc.setup()
+        nl = sc.nl
+        armed = [False]
+        if hook_name == 'on_finished':
+            class Bad:
+                @hookimpl
+                async def on_finished(self, context: Any) -> None:
+                    if armed[0]:
+                        raise RuntimeError('plugin failure in on_finished (injected by the harness)')
+        else:
+            class Bad:      # type: ignore[no-redef]
+                @hookimpl
+                async def on_change_state(self, context: Any, state_name: str) -> None:
+                    if armed[0] and state_name == 'finished':
+                        raise RuntimeError('plugin failure in on_change_state (injected by the harness)')
+        nl.register(Bad())
+        await sc.op('start')
+        await sc.op('run')
+        closer = asyncio.ensure_future(nl.close())
+        await lifecycle.settle()
+        armed[0] = True
+        for c in sc.world.live():
+            c.exit(RunResult(ret=5), exitcode=0)
+        await lifecycle.settle()
+        out = {'hook': hook_name, 'close_returned': closer.done(), 'state': nl.state}
+        if closer.done():
+            out['close_raised'] = None if closer.exception() is None else type(closer.exception()).__name__
+        else:
+            closer.cancel()
+        return out
+    fakes.install()
+    try:
+        return ctl.run(main, ctl.Fifo())
+    except (Exception, ctl.StepBudgetExceeded) as e:  # noqa
+        return {'hook': hook_name, 'error': f'{type(e).__name__}: {e}'}
 
 
 def run(chk: common.Check) -> None:
@@ -94,4 +143,20 @@ def run(chk: common.Check) -> None:
             oracle_fail.append((c, [f'scenario with overlapping calls failed: {c["error"]}'], None))
         if c['end_state'] == 'closed' and c['end_live']:
             oracle_fail.append((c, [f'the object is closed and {c["end_live"]} child process(es) are still alive'], None))
+    for hook_name in ('on_finished', 'on_change_state'):
+        r = close_pending_hook_failure(hook_name)
+        chk.cov.case(('close-pending-hook-failure', hook_name))
+        chk.cov.count('kinds', 'close-pending-while-a-completion-hook-raises')
+        m = []
+        if 'error' in r:
+            m.append(f'scenario failed: {r["error"]}')
+        else:
+            if not r['close_returned']:
+                m.append(f"close() was waiting for the run; the child exited and a plugin's {hook_name} raised: close() never returned (state {r['state']})")
+            elif r.get('close_raised'):
+                m.append(f"close() raised {r['close_raised']} after a plugin's {hook_name} had raised")
+            elif r['state'] != 'closed':
+                m.append(f"close() returned with the state {r['state']} after a plugin's {hook_name} had raised")
+        if m:
+            oracle_fail.append(({'close_pending_hook_failure': r}, m, None))
     _life.finish(chk, 'C03', oracle_fail, dis, 'close results, state, broker closing')
